@@ -2,6 +2,8 @@
 """Regenerates the seeded-changes table of DESIGN.md section 11.6 from seeded/*/meta.json."""
 import json, glob, os, re
 NOTES = {
+ 'C17-r14-env-report-shortcut-forgets-ms': 'Strengthened: first missed; reports are now also built for vectors with exactly one optional metric defined (every metric, every defined value, written alone or with the others spelled X).',
+ 'C09-r14-v2-base-remembers-last-score': 'The decoded fields stay right; what changes is the base / temporal score of the views after the environmental score was asked, which the score check of those views (C04) and the history check (C15) report.',
  'C16-r13-codetable-refresh-on-miss': 'Strengthened: first missed; the concurrent jobs now contain an invalid value code for every optional metric of both families (the miss path of every code lookup) next to a valid vector that carries every Modified metric.',
  'C15-r12-v2-temporal-multiply-in-map-order': 'Strengthened: first missed (the flipping value is an exact rounding tie, which C04 rightly admits either way); C15 now repeats every query on one object and on a second one over the whole v2 base/temporal domain and seeded environmental vectors of both families.',
  'C16-r12-intern-table-written-on-unknown-name': 'Strengthened: first missed; the stress mix decodes vectors with metric names never seen before in the process.',
